@@ -6,6 +6,8 @@ CHECKS = {
             "real": ["include/oneapi/tbb/concurrent_queue.h, detail/_concurrent_queue_base.h, src/tbb/concurrent_bounded_queue.cpp, concurrent_monitor"]},
     "C03": {"scenarios": ["c03"], "quick_budget_s": 50, "thorough_budget_s": 900,
             "real": ["exception paths of task_dispatcher, task_group_context, start_for/start_reduce/for_each/invoke/pipeline tasks, task_group, task_arena::execute delegation, flow graph function_node"]},
+    "C04": {"scenarios": ["c04"], "quick_budget_s": 50, "thorough_budget_s": 900,
+            "real": ["src/tbb/task_group_context.cpp (bind, propagate, cancel), context lists in thread_data, parallel_for as the binder"]},
     "C05": {"scenarios": ["c05"], "quick_budget_s": 50, "thorough_budget_s": 900,
             "real": ["include/oneapi/tbb/parallel_for.h, partitioner.h, blocked_range*.h, blocked_nd_range.h, parallel_for_each.h, parallel_invoke.h + scheduler"],
             "assumptions": ["the pure-input clause 'for every (begin,end,grain)' is sampled with corner-biased sizes (incl. > 2^24, > 2^32, near 2^64 with chunk-level accounting), not decided"]},
@@ -57,6 +59,9 @@ ASSUMPTIONS = [
 NOT_APPLICABLE = {}
 
 MANIFEST_TEXT = {
+    "C04": {"level": "Seeded search over schedules (incl. x86-TSO delays on the context objects) of context forests of 2-12 heap-allocated task_group_contexts (bound / isolated) that are bound lazily by nested parallel_for calls exactly as in production, with 1-3 cancel_group_execution calls issued from bodies inside the forest and from external threads, racing with binders; "
+                     "oracle at quiescence (binder threads still alive): at most one true per context (exactly one if no ancestor was cancelled), every bound context beneath a cancelled one is cancelled, nothing else is, the state persists until reset, task_group resets its own context.",
+            "note": "contexts that outlive the thread they were bound on (orphaned context lists) are outside the scenario; the oracle runs while the binder threads are alive."},
     "C03": {"level": "Seeded search over schedules and throw plans: the k-th..k+m-th invocation of {body, Range copy constructor, Range splitting constructor, reduction-body splitting constructor, join} throws a tagged exception inside parallel_for (4 partitioners), parallel_reduce, parallel_for_each, parallel_invoke, parallel_pipeline, task_group (wait / run_and_wait), task_arena::execute and a flow-graph function_node, optionally with a concurrent external cancel; "
                      "oracle: exactly one exception, with a tag really thrown by that group, reaches the caller; no body running or starting after the call exits; nothing escapes on a worker fiber; a second fault-free round on the same objects completes; construction/destruction balance of Range, Body and functor objects.",
             "note": "throw sites are harness-side (user code); allocation failures inside the scheduler itself are not injected."},
